@@ -87,6 +87,11 @@ func NewSolver(name string, timeoutMs int) (*Solver, error) {
 	}
 	s := &Solver{Name: name, cmd: cmd, in: in, out: bufio.NewReaderSize(outp, 1<<20),
 		defined: map[int]bool{}, declUF: map[string]bool{}, TimeoutMs: timeoutMs, memo: map[string]Result{}}
+	if lp := os.Getenv("VCHECK_SMTLOG"); lp != "" {
+		if f, err := os.OpenFile(fmt.Sprintf("%s.%s.%d", lp, name, os.Getpid()), os.O_CREATE|os.O_WRONLY|os.O_APPEND, 0o644); err == nil {
+			s.Log = f
+		}
+	}
 	s.send("(set-option :print-success false)")
 	s.send("(set-option :produce-models true)")
 	s.send("(set-option :global-declarations true)")
@@ -255,7 +260,9 @@ func (s *Solver) check(as []*Term, syms []*Term) (Result, map[string]ModelVal) {
 		return Unknown, nil
 	}
 	start := time.Now()
-	s.flushAxioms()
+	if HasStringSort(conj...) {
+		s.flushAxioms()
+	}
 	for _, a := range conj {
 		s.define(a)
 	}
@@ -634,10 +641,13 @@ func (r *Router) get(name string) *Solver {
 }
 
 func (r *Router) order(as []*Term) []string {
-	if HasStringOps(as...) {
+	if HasStringSort(as...) {
 		return []string{"cvc5", "z3-new", "z3"}
 	}
-	return []string{"z3", "z3-new", "cvc5"}
+	if HasHardArith(as...) {
+		return []string{"z3", "z3-new", "cvc5"}
+	}
+	return []string{"z3", "cvc5", "z3-new"}
 }
 
 func (r *Router) Check(as ...*Term) Result {
